@@ -68,6 +68,15 @@ auto solve_linear_ldlt(
   for (auto i = 0u; i < H.rows(); ++i) { H.coeffRef(i, i) += lambda * d(i) * d(i); }
 
   const LDLTt ldlt(H);
+
+  if constexpr (is_sparse) {
+    if (ldlt.info() != Eigen::Success) {
+      // the non-pivoting sparse factorization broke down (H numerically singular) and its solve() would
+      // return an unset vector: fall back to the pivoting dense factorization
+      return solve_linear_ldlt(Eigen::Matrix<Scalar, -1, -1>(J), d, r, lambda, dphi);
+    }
+  }
+
   const Eigen::Vector<Scalar, N> x = ldlt.solve(-J.transpose() * r);
 
   if (dphi.has_value()) {
